@@ -53,7 +53,7 @@ func (f *fileStorage) Set(key string, value []byte) error {
 	setMutex.Lock()
 	defer setMutex.Unlock()
 
-	if f.isTempFile(key) {
+	if f.isInvalidKey(key) {
 		return errInvalidKey
 	}
 
@@ -105,7 +105,7 @@ func (f *fileStorage) Get(key string) ([]byte, error) {
 
 // Delete removes the file for the corresponding key.
 func (f *fileStorage) Delete(key string) error {
-	if f.isTempFile(key) {
+	if f.isInvalidKey(key) {
 		return errInvalidKey
 	}
 
@@ -137,11 +137,23 @@ func (f *fileStorage) filePathToFile(file string) string {
 }
 
 func (f *fileStorage) fileForRead(key string) (*os.File, error) {
-	if f.isTempFile(key) {
+	if f.isInvalidKey(key) {
 		return nil, errInvalidKey
 	}
 
 	return os.OpenFile(f.filePathToFile(key), os.O_RDONLY, 0666)
+}
+
+// isInvalidKey returns true when the key has no file of its own inside the directory of the storage:
+// when its file would have the name of a temporary file, or when it is the directory itself or is
+// outside of it (e.g. the keys "", "." and ".."). Removing such a "file" would remove the directory.
+func (f *fileStorage) isInvalidKey(key string) bool {
+	dir := f.dir()
+	if !strings.HasSuffix(dir, string(os.PathSeparator)) {
+		dir += string(os.PathSeparator)
+	}
+
+	return f.isTempFile(key) || !strings.HasPrefix(f.filePathToFile(key), dir)
 }
 
 // isTempFile returns true when the file of the key has the name of a temporary file.
